@@ -23,9 +23,10 @@ def model_check(ctx):
     ctx.extra["design_offset0_counterexample"] = (r0.violated == "SusFloorCeil")
 
 
-def sus_case(cid, sus, wint, scale, k, size, rng, o=None):
+def sus_case(cid, sus, wint, scale, k, size, rng, o=None, wdtype=None):
     a = np.arange(100, 100 + len(wint))
-    p = np.array(wint, float) * scale
+    # the weight vector is handed over as float64 (times a scale) or, wdtype given, as the integer vector itself
+    p = np.array(wint, float) * scale if wdtype is None else np.array(wint, dtype=wdtype)
     c = {"id": cid, "kind": "sus", "w": list(wint), "n": k, "scripted": o is not None, "o": o or 0,
          "ws": sorted(wint, reverse=True), "scale": repr(scale), "size": repr(size)}
     try:
@@ -119,7 +120,7 @@ def run(ctx):
         scale = rng.choice([1.0, 0.1, 1e-3, 7.3, 1.0 / 3.0, 1e-7, 1e5])
         g = np.random.default_rng(rng.randrange(2 ** 32)) if t % 2 else np.random.RandomState(rng.randrange(2 ** 32))
         cid += 1
-        allc.append(sus_case(cid, sus, wv, scale, k, size, g))
+        allc.append(sus_case(cid, sus, wv, scale, k, size, g, wdtype=[None, None, "int64", "int32", None, "uint8" if max(wv) < 256 else "int64"][t % 6]))
     # ---- tiled choice
     for m in range(1, 8):
         for n in range(1, 23):
